@@ -13,6 +13,7 @@ EXTRA = {"C11-A": "C11,C15", "C02-B": "C02,C01", "C03-B": "C03,C02", "C06-B": "C
          "C16-Q": "C16,C04", "C04-Q": "C04,C16", "C16-R": "C16,C04", "C04-R": "C04,C16", "C13-R": "C13,C19", "C19-R": "C19,C02", "C05-Q": "C05,C03", "C05-R": "C05,C04",
          "C03-Q": "C03,C04", "C03-R": "C03,C01", "C12-Q": "C12,C11", "C11-R": "C11,C12", "C18-R": "C18,C14", "C08-Q": "C08,C07", "C08-R": "C08,C07", "C07-Q": "C07,C08", "C07-R": "C07,C08",
          "C17-R": "C17,C18", "C06-R": "C06,C10", "C02-Q": "C02,C01",
+         "C01-U": "C01,C15", "C02-U": "C02,C15", "C03-U": "C03,C15", "C19-U": "C19,C15", "C05-U": "C05,C15", "C05-V": "C05,C03", "C07-U": "C07,C09", "C08-V": "C08,C07", "C17-U": "C17,C07", "C09-U": "C09,C07", "C18-U": "C18,C19",
          "C03-T": "C03,C01", "C11-S": "C11,C14", "C14-T": "C14,C17", "C17-S": "C17,C18", "C17-T": "C17,C14", "C18-T": "C18,C17", "C15-T": "C15,C01", "C01-T": "C01,C15", "C13-S": "C13,C16", "C06-T": "C06,C19", "C19-T": "C19,C06", "C02-S": "C02,C04", "C02-T": "C02,C01", "C04-S": "C04,C03", "C07-S": "C07,C09", "C09-T": "C09,C07", "C07-T": "C07,C08", "C08-S": "C08,C07", "C08-T": "C08,C07", "C16-S": "C16,C13", "C05-T": "C05,C04"}
 args = sys.argv[1:]
 lanes = 4
